@@ -559,6 +559,17 @@ func thoroughSelftest(ctx *Ctx, rule *Rule, p *engine.Prog, rep *engine.Report, 
 }
 
 // overlayFromPatch applies a unified diff to copies of the files it touches and returns them as an overlay.
+// OverlayFromPatch applies a unified diff to private copies of the files it names and returns them as an overlay
+// (the repository itself is not touched).
+func OverlayFromPatch(repo, patch string) (map[string][]byte, error) {
+	scratch, err := os.MkdirTemp("", "kvcheck-patch-")
+	if err != nil {
+		return nil, err
+	}
+	defer os.RemoveAll(scratch)
+	return overlayFromPatch(repo, patch, scratch, "p")
+}
+
 func overlayFromPatch(repo, patch, scratch, id string) (map[string][]byte, error) {
 	b, err := os.ReadFile(patch)
 	if err != nil {
